@@ -258,6 +258,16 @@ func layerQ(seed uint64, tier string, lenHeavy bool) *c04Result {
 				ops = append(ops, qIn{Op: qoLen})
 			}
 		}
+		if res.Seq && r.Chance(50) {
+			// ... and then the backlog is drained to the last item (a burst that is worked off:
+			// whatever the queue does when it shrinks must not bring an item back)
+			for i := 0; i < per; i++ {
+				ops = append(ops, qIn{Op: qoDeq})
+				if i%7 == 0 {
+					ops = append(ops, qIn{Op: qoLen})
+				}
+			}
+		}
 		scripts = append(scripts, ops)
 	}
 	var log []*qOp
